@@ -46,7 +46,7 @@ impl Prop for P {
         }
     }
     fn cases(tier: Tier) -> u64 {
-        tier.pick(100_000, 800_000)
+        tier.pick(400_000, 4_000_000)
     }
     fn strategy(_tier: Tier) -> BoxedStrategy<Case> {
         let ring = prop_oneof![3 => Just(None), 2 => (Just(15u8), any::<u32>(), any::<u64>()).prop_map(Some), 1 => (10u8..=16, any::<u32>(), any::<u64>()).prop_map(Some)];
